@@ -1,7 +1,7 @@
 #!/usr/bin/python3
 """usage: c03show.py <key-substring>  - decode a C03 witness"""
 import glob, json, sys
-for f in sorted(glob.glob('/verif/evidence/replay/C03-*-0.json')):
+for f in sorted(glob.glob('/verif/evidence/replay/C*-*-0.json')):
     w = json.load(open(f))
     if sys.argv[1] not in w['key']:
         continue
